@@ -254,7 +254,10 @@ Qed.
 Definition nonincr : list N -> Prop := StronglySorted (fun a b => b <= a).
 
 Lemma last_cons (a : N) l d : last (a :: l) d = last l a.
-Proof. revert a d. induction l as [|b t IH]; intros a d; [reflexivity|]. cbn [last] in *. destruct t; [reflexivity|]. apply (IH b a). Qed.
+Proof.
+  revert a d. induction l as [|b t IH]; intros a d; [reflexivity|].
+  change (last (a :: b :: t) d) with (last (b :: t) d). rewrite (IH b d), (IH b a). reflexivity.
+Qed.
 
 Lemma last_default (l : list N) d d' : l <> [] -> last l d = last l d'.
 Proof. destruct l as [|a t]; [congruence|]. intros _. rewrite !last_cons. reflexivity. Qed.
@@ -345,3 +348,256 @@ Proof.
   - contradiction.
   - exact E.
 Qed.
+
+(* ------------------------------------------------------------------------------------------- *)
+(* The passes of ot_shape.rs                                                                     *)
+
+Lemma is_ign_respects : respects is_ign.
+Proof. intros g c m. reflexivity. Qed.
+
+Lemma is_ign_with_gid g i : is_ign (with_gid g i) = is_ign g.
+Proof. reflexivity. Qed.
+
+Lemma passes_preserve e l : preserve e = true -> passes e l = l.
+Proof.
+  intros Hp. unfold passes, hide_default_ignorables, zero_width_default_ignorables. rewrite Hp.
+  destruct (has_di e), (remove e); reflexivity.
+Qed.
+
+(* hidden: same length and order, clusters and masks untouched; ignorable glyphs become the
+   invisible/space glyph at zero advance and offset, all other glyphs are untouched *)
+Lemma passes_hide e l inv : has_di e = true -> preserve e = false -> remove e = false ->
+  invisible_glyph e = Some inv ->
+  passes e l = map (fun s => if is_ign (fst s) then hidden_as inv s else s) l.
+Proof.
+  intros Hd Hp Hr Hi. unfold passes, hide_default_ignorables, zero_width_default_ignorables.
+  rewrite Hd, Hp, Hr, Hi. cbn [negb andb]. rewrite map_map. apply map_ext. intros [g p].
+  unfold hide_one, zero_one, hidden_as. cbn [fst snd]. destruct (is_ign g) eqn:Hg; cbn [fst snd]; rewrite Hg; reflexivity.
+Qed.
+
+Lemma filter_keep_zero l : map frame (filter (keepf is_ign) (map zero_one l)) = map frame (filter (keepf is_ign) l).
+Proof.
+  induction l as [|[g p] t IH]; [reflexivity|]. cbn [map]. unfold zero_one at 1. cbn [fst].
+  destruct (is_ign g) eqn:Hg; rewrite !filter_keepf_cons, Hg; [exact IH|]. cbn [map]. rewrite IH. reflexivity.
+Qed.
+
+Lemma clusters_zero l : clusters (map zero_one l) = clusters l.
+Proof.
+  unfold clusters. rewrite map_map. apply map_ext. intros [g p]. unfold zero_one. cbn [fst].
+  destruct (is_ign g); reflexivity.
+Qed.
+
+(* removed: what the delete case of the passes computes *)
+Lemma passes_delete_eq e l : has_di e = true -> preserve e = false ->
+  (remove e = true \/ invisible_glyph e = None) ->
+  passes e l = delete_glyphs_inplace is_ign (e_level e) l \/
+  passes e l = delete_glyphs_inplace is_ign (e_level e) (map zero_one l).
+Proof.
+  intros Hd Hp Hc. unfold passes, hide_default_ignorables, zero_width_default_ignorables. rewrite Hd, Hp.
+  destruct (remove e) eqn:Hr; cbn [negb andb].
+  - left. reflexivity.
+  - destruct Hc as [Hc|Hc]; [discriminate|]. rewrite Hc. right. reflexivity.
+Qed.
+
+Lemma passes_delete_frame e l : has_di e = true -> preserve e = false ->
+  (remove e = true \/ invisible_glyph e = None) ->
+  map frame (passes e l) = map frame (filter (keepf is_ign) l).
+Proof.
+  intros Hd Hp Hc. destruct (passes_delete_eq e l Hd Hp Hc) as [-> | ->].
+  - apply delete_frame, is_ign_respects.
+  - rewrite delete_frame by apply is_ign_respects. apply filter_keep_zero.
+Qed.
+
+Lemma passes_delete_clusters e l : has_di e = true -> preserve e = false ->
+  (remove e = true \/ invisible_glyph e = None) ->
+  incl (clusters (passes e l)) (clusters l).
+Proof.
+  intros Hd Hp Hc. destruct (passes_delete_eq e l Hd Hp Hc) as [-> | ->].
+  - apply delete_clusters.
+  - rewrite <- (clusters_zero l). apply delete_clusters.
+Qed.
+
+Lemma passes_delete_first e l : has_di e = true -> preserve e = false ->
+  (remove e = true \/ invisible_glyph e = None) ->
+  e_level e <> CLUSTER_LEVEL_CHARACTERS -> StronglySorted N.le (clusters l) ->
+  forall r0 rs, passes e l = r0 :: rs ->
+  exists s0 t, l = s0 :: t /\ cluster (fst r0) = cluster (fst s0) /\ Forall (N.le (cluster (fst s0))) (clusters l).
+Proof.
+  intros Hd Hp Hc Hlev Hs r0 rs. destruct (passes_delete_eq e l Hd Hp Hc) as [-> | ->]; intros Hr.
+  - apply (delete_sorted_first is_ign (e_level e) l Hlev Hs r0 rs Hr).
+  - rewrite <- (clusters_zero l) in Hs.
+    destruct (delete_sorted_first is_ign (e_level e) _ Hlev Hs r0 rs Hr) as [s0 [t [E [Hc0 Hall]]]].
+    destruct l as [|[g p] t0]; [discriminate|]. exists (g, p), t0. split; [reflexivity|].
+    cbn [map] in E. injection E as <- _. rewrite clusters_zero in Hall.
+    assert (Ez : cluster (fst (zero_one (g, p))) = cluster g) by (unfold zero_one; cbn [fst]; destruct (is_ign g); reflexivity).
+    rewrite Ez in *. cbn [fst]. split; assumption.
+Qed.
+
+Lemma passes_delete_last e l : has_di e = true -> preserve e = false ->
+  (remove e = true \/ invisible_glyph e = None) ->
+  nonincr (clusters l) -> passes e l <> [] ->
+  forall d, last (clusters (passes e l)) d = last (clusters l) d.
+Proof.
+  intros Hd Hp Hc Hs. destruct (passes_delete_eq e l Hd Hp Hc) as [-> | ->]; intros Hne d.
+  - apply delete_rev_last; assumption.
+  - rewrite <- (clusters_zero l) in *. apply delete_rev_last; assumption.
+Qed.
+
+Lemma map_zero_none l : Forall (fun s => is_ign (fst s) = false) l -> map zero_one l = l.
+Proof.
+  induction l as [|[g p] t IH]; intros H; [reflexivity|]. inversion H as [|? ? Hg Ht]; subst.
+  cbn [map]. rewrite (IH Ht). unfold zero_one. cbn [fst] in *. rewrite Hg. reflexivity.
+Qed.
+
+Lemma map_hide_none inv l : Forall (fun s => is_ign (fst s) = false) l -> map (hide_one inv) l = l.
+Proof.
+  induction l as [|[g p] t IH]; intros H; [reflexivity|]. inversion H as [|? ? Hg Ht]; subst.
+  cbn [map]. rewrite (IH Ht). unfold hide_one. cbn [fst] in *. rewrite Hg. reflexivity.
+Qed.
+
+(* no ignorable glyph: the passes are the identity whatever the flags say *)
+Lemma passes_none e l : Forall (fun s => is_ign (fst s) = false) l -> passes e l = l.
+Proof.
+  intros Hn. pose proof (map_zero_none l Hn) as Hz. pose proof (fun inv => map_hide_none inv l Hn) as Hh.
+  unfold passes, hide_default_ignorables, zero_width_default_ignorables.
+  assert (Hz' : (if has_di e && negb (preserve e) && negb (remove e) then map zero_one l else l) = l)
+    by (destruct (has_di e && negb (preserve e) && negb (remove e)); [exact Hz|reflexivity]).
+  rewrite Hz'. destruct (has_di e && negb (preserve e)); [|reflexivity].
+  destruct (negb (remove e)); [destruct (invisible_glyph e); [apply Hh|]|]; apply delete_none; exact Hn.
+Qed.
+
+(* ------------------------------------------------------------------------------------------- *)
+(* The simple pipeline: inserting ignorables is inert                                            *)
+
+Definition vis_of_frame (x : N * N * N * gpos) : N * gpos := (fst (fst (fst x)), snd x).
+Definition keeps_of_frame (x : N * N * N * gpos) : bool :=
+  negb (negb (N.land (snd (fst (fst x))) UPROPS_IGNORABLE =? 0) && negb (negb (N.land (snd (fst x)) GPROPS_SUBSTITUTED =? 0))).
+
+Lemma visible_frame s : visible s = vis_of_frame (frame s).
+Proof. destruct s as [g p]. reflexivity. Qed.
+Lemma keeps_frame s : keeps s = keeps_of_frame (frame s).
+Proof. destruct s as [g p]. reflexivity. Qed.
+Lemma keepf_keeps : keepf is_ign = keeps.
+Proof. reflexivity. Qed.
+
+Lemma filter_map_frame (a b : list slot) : map frame a = map frame b ->
+  map visible (filter keeps a) = map visible (filter keeps b).
+Proof.
+  revert b. induction a as [|x a IH]; intros [|y b] H; try discriminate; [reflexivity|].
+  cbn [map] in H. assert (Hxy : frame x = frame y) by congruence.
+  assert (Hab : map frame a = map frame b) by congruence. clear H. cbn [filter]. rewrite !keeps_frame, Hxy.
+  destruct (keeps_of_frame (frame y)); [|apply IH; exact Hab].
+  cbn [map]. rewrite !visible_frame, Hxy, (IH b Hab). reflexivity.
+Qed.
+
+Lemma filter_keeps_idem (l : list slot) : filter keeps (filter keeps l) = filter keeps l.
+Proof.
+  induction l as [|x t IH]; [reflexivity|]. cbn [filter]. destruct (keeps x) eqn:E; [|exact IH].
+  cbn [filter]. rewrite E, IH. reflexivity.
+Qed.
+
+(* without PRESERVE the passes do not change what the non-ignorable glyphs look like *)
+Lemma passes_keeps_visible e l : preserve e = false ->
+  (has_di e = true \/ Forall (fun s => is_ign (fst s) = false) l) ->
+  map visible (filter keeps (passes e l)) = map visible (filter keeps l).
+Proof.
+  intros Hp [Hd|Hn]; [|rewrite passes_none by exact Hn; reflexivity].
+  destruct (remove e) eqn:Hr.
+  - rewrite (filter_map_frame _ (filter keeps l)).
+    + rewrite filter_keeps_idem. reflexivity.
+    + apply passes_delete_frame; auto.
+  - destruct (invisible_glyph e) as [inv|] eqn:Hi.
+    + rewrite (passes_hide e l inv Hd Hp Hr Hi).
+      change keeps with (keepf is_ign). induction l as [|[g p] t IH]; [reflexivity|]. cbn [map fst].
+      destruct (is_ign g) eqn:Hg; unfold hidden_as; cbn [fst];
+        rewrite !filter_keepf_cons, ?is_ign_with_gid, Hg; [exact IH|].
+      cbn [map]. f_equal. exact IH.
+    + rewrite (filter_map_frame _ (filter keeps l)).
+      * rewrite filter_keeps_idem. reflexivity.
+      * apply passes_delete_frame; auto.
+Qed.
+
+Lemma is_ign_shape_char ft i cp : is_ign (fst (shape_char ft i cp)) = ign_cp cp.
+Proof.
+  unfold shape_char, is_ign, ign_bit, substituted. cbn [fst uprops gprops].
+  destruct (ign_cp cp); vm_compute; reflexivity.
+Qed.
+
+Lemma shape_chars_keeps ft : forall t i j,
+  map visible (filter keeps (shape_chars ft i t)) =
+  map visible (shape_chars ft j (filter (fun cp => negb (ign_cp cp)) t)).
+Proof.
+  induction t as [|cp r IH]; intros i j; [reflexivity|].
+  cbn [shape_chars filter]. unfold keeps at 1. rewrite is_ign_shape_char.
+  destruct (ign_cp cp); cbn [negb]; [apply IH|].
+  cbn [shape_chars map]. rewrite (IH (i + 1) (j + 1)). reflexivity.
+Qed.
+
+Lemma shape_chars_no_ign ft : forall t i, Forall (fun cp => ign_cp cp = false) t ->
+  Forall (fun s => is_ign (fst s) = false) (shape_chars ft i t).
+Proof.
+  induction t as [|cp r IH]; intros i H; [constructor|]. inversion H; subst.
+  cbn [shape_chars]. constructor; [rewrite is_ign_shape_char; assumption|apply IH; assumption].
+Qed.
+
+Lemma shape_chars_existsb ft : forall t i, existsb ign_cp t = false ->
+  Forall (fun s => is_ign (fst s) = false) (shape_chars ft i t).
+Proof.
+  intros t i H. apply shape_chars_no_ign. rewrite Forall_forall. intros cp Hin.
+  destruct (ign_cp cp) eqn:E; [|reflexivity].
+  assert (existsb ign_cp t = true) by (apply existsb_exists; exists cp; split; assumption). congruence.
+Qed.
+
+Lemma insertion_inert ft flags level t : has_bit flags FLAG_PRESERVE_DEFAULT_IGNORABLES = false ->
+  map visible (filter keeps (simple_shape ft flags level t)) =
+  map visible (simple_shape ft flags level (filter (fun cp => negb (ign_cp cp)) t)).
+Proof.
+  intros Hp. unfold simple_shape.
+  rewrite (passes_none _ (shape_chars ft 0 (filter _ t))).
+  2:{ apply shape_chars_no_ign. rewrite Forall_forall. intros cp Hin. apply filter_In in Hin.
+      destruct Hin as [_ Hin]. destruct (ign_cp cp); [discriminate|reflexivity]. }
+  rewrite passes_keeps_visible.
+  - apply shape_chars_keeps.
+  - exact Hp.
+  - unfold env_of, has_di. cbn [e_scratch]. destruct (existsb ign_cp t) eqn:E.
+    + left. vm_compute. reflexivity.
+    + right. apply shape_chars_existsb. exact E.
+Qed.
+
+(* every non-ignorable character of the text is drawn with its own glyph at its hmtx advance *)
+Lemma simple_shape_no_ign ft flags level t : Forall (fun cp => ign_cp cp = false) t ->
+  simple_shape ft flags level t = shape_chars ft 0 t.
+Proof. intros H. apply passes_none, shape_chars_no_ign, H. Qed.
+
+Lemma simple_shape_preserve ft flags level t : has_bit flags FLAG_PRESERVE_DEFAULT_IGNORABLES = true ->
+  simple_shape ft flags level t = shape_chars ft 0 t.
+Proof. intros H. apply passes_preserve. exact H. Qed.
+
+(* ------------------------------------------------------------------------------------------- *)
+(* Classification                                                                                *)
+
+Ltac Zify.zify_post_hook ::= Z.div_mod_to_equations.
+
+Lemma spec_ranges_ok : forall cp, in_ranges spec_ranges cp = dicp_minus_fillers cp.
+Proof.
+  intros cp. unfold dicp_minus_fillers, dicp, filler, in_ranges, spec_ranges, dicp_ranges, in_range.
+  cbn [existsb fst snd]. lia.
+Qed.
+
+(* the function regenerated from src/hb/unicode.rs against the Unicode 16 property minus the four
+   fillers, outside the known class; by case analysis on the plane/page tests and linear arithmetic
+   (no enumeration of code points). Breaks when the source's ranges change. *)
+Lemma classification_outside_known : forall cp, cp < 0x110000 -> ~ (0x1BCA0 <= cp <= 0x1BCA3) ->
+  is_default_ignorable cp = dicp_minus_fillers cp.
+Proof.
+  intros cp Hb Hk. rewrite <- spec_ranges_ok.
+  unfold is_default_ignorable, in_ranges, spec_ranges, in_range.
+  cbn [existsb fst snd]. cbv zeta. rewrite ?N.shiftr_div_pow2.
+  repeat match goal with |- context [if ?b then _ else _] => destruct b eqn:? end; lia.
+Qed.
+
+Lemma classification_refuted : exists cp, (0x1BCA0 <= cp <= 0x1BCA3) /\ is_default_ignorable cp <> dicp_minus_fillers cp.
+Proof. exists 0x1BCA0. split; [lia|]. vm_compute. discriminate. Qed.
+
+Lemma shape_guard_ok : ignorable_shape_ok = true.
+Proof. reflexivity. Qed.
